@@ -57,7 +57,8 @@ pub fn combined_quality(
         + external_assignment_data
             .assigned_course_choice_penalties
             .iter()
-            .sum::<u32>() as usize) as f32
+            .map(|penalty| *penalty as usize)
+            .sum::<usize>()) as f32
         / (num_real_participants
             + external_assignment_data
                 .assigned_course_choice_penalties
